@@ -1223,6 +1223,12 @@ fn c14(ctx: &BoardCtx, p: &Pos, fen: &str, b: &mut Bitboard) {
             if after.is_stalemate() {
                 *local.entry("stalemating_moves").or_insert(0) += 1;
             }
+            if expected.ends_with('+') {
+                let replies = after.legal();
+                if !replies.is_empty() && replies.iter().all(|m| m.is_ep) {
+                    *local.entry("checks_answered_only_by_en_passant").or_insert(0) += 1;
+                }
+            }
         }
         let body = strip_suffix(&expected);
         if rm.piece != PAWN && !rm.is_castle {
